@@ -20,11 +20,12 @@ def plan(tier, seed):
         else:
             parts_ = [(s, s + 1, r, r + 1) for s in range(7) for r in range(3)]
         for s0lo, s0hi, r0lo, r0hi in parts_:
-            conds.append(Cond("c20-%s-%s-req%d-slots%d-k%d-s%d-r%d" % (role, ext or "noext", req, 2 if two else 1, k, s0lo, r0lo),
-                              F, "c20_k%d" % k,
+            kk = k if (q or not two) else 3        # two tag slots: K=3 (the space is 7 times larger)
+            conds.append(Cond("c20-%s-%s-req%d-slots%d-k%d-s%d-r%d" % (role, ext or "noext", req, 2 if two else 1, kk, s0lo, r0lo),
+                              F, "c20_k%d" % kk,
                               env={"C20_ROLE": role, "C20_EXT": ext, "C20_REQUIRE": req, "C20_TWO_SLOTS": two,
                                    "C20_S0LO": s0lo, "C20_S0HI": s0hi, "C20_R0LO": r0lo, "C20_R0HI": r0hi},
-                              timeout=280 if q else 3000))
+                              timeout=280 if q else 1800))
     conds.append(Cond("c20-vacuity", F, "c20_k3", env={"C20_ROLE": "action"}, timeout=90, vacuity=True))
     meta = dict(functions=["sievelib.commands.add_commands", "sievelib.commands.get_command_instance",
                            "sievelib.commands.Command.check_next_arg", "sievelib.commands.Command.iscomplete",
